@@ -88,6 +88,14 @@ func (vc *VC) parseType(s string, pkg *types.Package) *GType {
 		}
 	}
 	if strings.HasPrefix(s, "gomap[") {
+		// gomap[K]V with a type parameter as value type
+		if cb := strings.Index(s, "]"); cb > 0 {
+			if vt, ok := vc.tparams[strings.TrimSpace(s[cb+1:])]; ok {
+				if kt := vc.parseType(s[len("gomap["):cb], pkg); kt != nil && kt.Kind == "go" {
+					return &GType{Kind: "go", Go: types.NewMap(kt.Go, vt)}
+				}
+			}
+		}
 		t := vc.eng.parseGoTypeExpr(s[2:], pkg)
 		if t == nil {
 			panic(evalErr("cannot resolve type " + s))
@@ -1112,6 +1120,15 @@ func (ctx *EvalCtx) call(e *CExpr) TV {
 		// abstract views of the reflective leaves writeAllowed / HasIdentifiers (see specials.go)
 		x := arg(0)
 		return boolTV(app(vc.leafFun(name, []string{x.sort(vc)}, "Bool"), x.t))
+	case "hkey":
+		x := arg(0)
+		return TV{t: app(vc.leafFun("hkey", []string{x.sort(vc)}, "Int"), x.t), typ: types.Typ[types.String]}
+	case "updf":
+		// updf(rw, src, dst): the item updateFields leaves in dst (fields of src that dst lacks; on remote writes also
+		// the changeability flag of src)
+		rw, a, b := arg(0), arg(1), arg(2)
+		srt := b.sort(vc)
+		return TV{t: app(vc.leafFun("updf", []string{"Bool", srt, srt}, srt), rw.t, a.t, b.t), typ: b.typ, g: b.g}
 	case "selm":
 		fd, x := arg(0), arg(1)
 		return boolTV(app(vc.leafFun("selm", []string{"Int", x.sort(vc)}, "Bool"), fd.t, x.t))
